@@ -29,6 +29,7 @@ def _setup_paths():
         raise core.HarnessError(f"no dulwich package under {repo}")
     sys.path.insert(0, repo)
     os.environ.setdefault("DULWICH_VERIF", "1")
+    os.environ["RUST_BACKTRACE"] = "0"  # symbolised backtraces are slow and allocate; panics are observed as exceptions
 
 
 def _check_dulwich_origin():
